@@ -11,6 +11,7 @@ import (
 	"time"
 
 	"github.com/brocaar/lorawan"
+	"github.com/brocaar/lorawan/applayer/clocksync"
 	"github.com/jacobsa/crypto/cmac"
 
 	"verifharness/internal/cases"
@@ -326,7 +327,7 @@ func forgedExchange(s *cases.Set, r *cq.RNG, up bool, v lorawan.MACVersion, want
 		mts = []lorawan.MType{lorawan.UnconfirmedDataUp, lorawan.ConfirmedDataUp}
 	}
 	n := 23 + 16*r.Intn(2)
-	p := framefmt.DataFrame(r, framefmt.Opt{MType: mts[r.Intn(2)], Port: 1 + r.Intn(255), FRMLen: n, FCntHigh: r.Intn(10) < 7})
+	p := dataFrame(r, framefmt.Opt{MType: mts[r.Intn(2)], Port: 1 + r.Intn(255), FRMLen: n, FCntHigh: r.Intn(10) < 7})
 	m := p.MACPayload.(*lorawan.MACPayload)
 	ct := m.FRMPayload[0].(*lorawan.DataPayload)
 	k := keys{key(r), key(r), key(r), key(r)}
@@ -373,7 +374,7 @@ func fanOut(s *cases.Set, r *cq.RNG, v lorawan.MACVersion, i int) {
 		return
 	}
 	bFrm, bFo := snap(frm), snap(fo)
-	base := framefmt.DataFrame(r, framefmt.Opt{MType: mt, Port: 1 + r.Intn(200), FCntHigh: i%2 == 0})
+	base := dataFrame(r, framefmt.Opt{MType: mt, Port: 1 + r.Intn(200), FCntHigh: i%2 == 0})
 	for pass := 0; pass < 3; pass++ {
 		build := func(f, o []lorawan.Payload) lorawan.PHYPayload {
 			m := *base.MACPayload.(*lorawan.MACPayload)
@@ -426,7 +427,7 @@ func dirFamily(s *cases.Set, r *cq.RNG, v lorawan.MACVersion, i int) {
 	quiet = true
 	defer func() { quiet = false }()
 	o := framefmt.Opt{MType: lorawan.UnconfirmedDataDown, Port: 1 + r.Intn(200), FRMLen: 1 + r.Intn(40), FOptsBytes: r.Intn(4), FCntHigh: i%2 == 0}
-	p := framefmt.DataFrame(r, o)
+	p := dataFrame(r, o)
 	p.MACPayload.(*lorawan.MACPayload).FHDR.FOpts = nil // commands are direction specific: none
 	k := newKeys(r, v)
 	prm := params{counter(r), r.Byte(), r.Byte()}
@@ -468,13 +469,63 @@ func cmacCase(s *cases.Set, k, m []byte, name string) {
 		Replay: map[string]interface{}{"api": "jacobsa/crypto/cmac", "key": hx(k), "msg": hx(m), "observed": hx(o)}})
 }
 
+// dataFrame / joinFrame: the framefmt generators with the MHDR Major field drawn from all four values (the library
+// accepts any; the MHDR octet enters every MIC)
+func dataFrame(r *cq.RNG, o framefmt.Opt) lorawan.PHYPayload {
+	p := framefmt.DataFrame(r, o)
+	p.MHDR.Major = lorawan.Major(r.Intn(4))
+	return p
+}
+
+func joinFrame(r *cq.RNG, kind int) lorawan.PHYPayload {
+	p := framefmt.JoinFrame(r, kind)
+	p.MHDR.Major = lorawan.Major(r.Intn(4))
+	return p
+}
+
+// opaquify replaces *DataPayload elements of FRMPayload / FOpts by a Payload implementation that does not come
+// from the library (framefmt.Opaque; on the wire it is the bytes its MarshalBinary returns). how: 0 all, 1 FRMPayload
+// only, 2 FOpts only, 3 FRMPayload split into [Opaque, DataPayload].
+func opaquify(p lorawan.PHYPayload, how int) lorawan.PHYPayload {
+	m, ok := p.MACPayload.(*lorawan.MACPayload)
+	if !ok {
+		return p
+	}
+	c := *m
+	conv := func(l []lorawan.Payload) []lorawan.Payload {
+		out := make([]lorawan.Payload, len(l))
+		for i, e := range l {
+			if d, ok := e.(*lorawan.DataPayload); ok {
+				out[i] = &framefmt.Opaque{B: append([]byte{}, d.Bytes...)}
+			} else {
+				out[i] = e
+			}
+		}
+		return out
+	}
+	if how == 0 || how == 1 {
+		c.FRMPayload = conv(m.FRMPayload)
+	}
+	if how == 0 || how == 2 {
+		c.FHDR.FOpts = conv(m.FHDR.FOpts)
+	}
+	if how == 3 && len(m.FRMPayload) == 1 {
+		if d, ok := m.FRMPayload[0].(*lorawan.DataPayload); ok && len(d.Bytes) >= 2 {
+			h := len(d.Bytes) / 2
+			c.FRMPayload = []lorawan.Payload{&framefmt.Opaque{B: append([]byte{}, d.Bytes[:h]...)}, &lorawan.DataPayload{Bytes: append([]byte{}, d.Bytes[h:]...)}}
+		}
+	}
+	p.MACPayload = &c
+	return p
+}
+
 func main() {
 	log.SetOutput(io.Discard)
 	dir, seed, thorough := cases.Args()
 	r := cq.NewRNG(seed)
 	nr = cq.NewRNG(seed ^ 0x9e3779b97f4a7c15)
 	s := cases.New("C05", dir, "LW.Corr.C05",
-		"RFC 4493 examples first; corpus: FPort 0 with empty FRMPayload (C05-1), a frame whose MHDR RFU bit is flipped (C05-2). Pipeline: data frames with MAC commands in FOpts (0..15 bytes) and application payload (block-boundary lengths), commands on port 0, FOpts only, empty payloads, raw bytes; 4 MTypes, both MAC versions, FCnt above 2^16 in 70%, random keys (1.0: one network key; in a third of the sessions SNwkSIntKey = FNwkSIntKey, all network keys equal, all-zero keys or zero integrity keys), ConfFCnt/txDR/txCh random; the bytes the implementation sends are also given to the model's receiver (a specification-conformant peer must recover the content). Special MIC values: exchanges of application frames CONSTRUCTED (internal/micforge) so that the MIC of the serialised frame is 00000000, ffffffff, 00000001 (both directions, both versions). Fan-out: one FRMPayload slice and one FOpts slice kept by the caller and put into three frames (FCnt + 1, other DevAddr, other keys) exchanged in turn, printed from the original objects, slices unchanged afterwards; every exchange is also repeated from 8 goroutines at once. History: unrelated library calls (internal/noise) before every compared call; direction families run back to back (one frame content exchanged as downlink, uplink, confirmed downlink, confirmed uplink, uplink, downlink); every pipeline call is repeated twice later in the process (reverse and same order) and must give its first result. Tampering: for a subset of frames EVERY single-bit flip of the serialised frame (the receiver extends the 16 bits on the wire with its own upper 16 bits), and every single-parameter mismatch: each key with one bit flipped, FCnt +/- 2^16, ConfFCnt + 1 and + 2^16, txDR, txCh, validation with the other direction's function, the other MAC version. Every case distinct by construction.")
+		"RFC 4493 examples first; corpus: FPort 0 with empty FRMPayload (C05-1), a frame whose MHDR RFU bit is flipped (C05-2). Pipeline: data frames with MAC commands in FOpts (0..15 bytes) and application payload (block-boundary lengths), commands on port 0, FOpts only, empty payloads, raw bytes; 4 MTypes, both MAC versions, FCnt above 2^16 in 70%, random keys (1.0: one network key; in a third of the sessions SNwkSIntKey = FNwkSIntKey, all network keys equal, all-zero keys or zero integrity keys), ConfFCnt/txDR/txCh random; the bytes the implementation sends are also given to the model's receiver (a specification-conformant peer must recover the content). Special MIC values: exchanges of application frames CONSTRUCTED (internal/micforge) so that the MIC of the serialised frame is 00000000, ffffffff, 00000001 (both directions, both versions). MHDR Major drawn from 0..3; in a quarter of the exchanges the FRMPayload / FOpts elements are of a foreign Payload type (framefmt.Opaque, mixed [Opaque, DataPayload], [MAC commands, Opaque] in FOpts, a clocksync.Command on port 202). Fan-out: one FRMPayload slice and one FOpts slice kept by the caller and put into three frames (FCnt + 1, other DevAddr, other keys) exchanged in turn, printed from the original objects, slices unchanged afterwards; every exchange is also repeated from 8 goroutines at once. History: unrelated library calls (internal/noise) before every compared call; direction families run back to back (one frame content exchanged as downlink, uplink, confirmed downlink, confirmed uplink, uplink, downlink); every pipeline call is repeated twice later in the process (reverse and same order) and must give its first result. Tampering: for a subset of frames EVERY single-bit flip of the serialised frame (the receiver extends the 16 bits on the wire with its own upper 16 bits), and every single-parameter mismatch: each key with one bit flipped, FCnt +/- 2^16, ConfFCnt + 1 and + 2^16, txDR, txCh, validation with the other direction's function, the other MAC version. Every case distinct by construction.")
 	s.ShardSize = 200
 	nPipe, nFlipFrames := 160, 24
 	if thorough {
@@ -542,7 +593,7 @@ func main() {
 		v := vers[i%2]
 		small := i < nFlipFrames
 		o := dataOpt(r, small)
-		p := framefmt.DataFrame(r, o)
+		p := dataFrame(r, o)
 		m := p.MACPayload.(*lorawan.MACPayload)
 		if !o.FCntHigh && r.Intn(3) == 0 {
 			m.FHDR.FCnt = []uint32{0, 0xffff, 1}[r.Intn(3)]
@@ -552,6 +603,19 @@ func main() {
 		}
 		up := isUp(p.MHDR.MType)
 		full := m.FHDR.FCnt
+		if i%4 == 2 { // payload elements of a type that does not come from the library
+			p = opaquify(p, (i/4)%4)
+		}
+		if i%20 == 9 { // an application-layer command object as FRMPayload on its port, FOpts = [commands..., Opaque]
+			pt := uint8(202)
+			mm := *p.MACPayload.(*lorawan.MACPayload)
+			mm.FPort = &pt
+			mm.FRMPayload = []lorawan.Payload{&clocksync.Command{CID: clocksync.AppTimeReq, Payload: &clocksync.AppTimeReqPayload{DeviceTime: r.U32(), Param: clocksync.AppTimeReqPayloadParam{AnsRequired: r.Bool(), TokenReq: uint8(r.Intn(16))}}}}
+			if i%40 == 9 {
+				mm.FHDR.FOpts = append(framefmt.ValidCmds(r, up, 4), &framefmt.Opaque{B: r.Bytes(1 + r.Intn(3))})
+			}
+			p.MACPayload = &mm
+		}
 		k := newKeys(r, v)
 		prm := params{counter(r), r.Byte(), r.Byte()}
 		b := pipeCase(s, p, v, k, prm, "pipeline-"+ver(v), "")
